@@ -4,7 +4,9 @@ import (
 	"bytes"
 	"fmt"
 	"os"
+	"runtime"
 	"strings"
+	"sync"
 	"syscall"
 	"time"
 
@@ -15,7 +17,7 @@ import (
 func init() { props["C19"] = runC19 }
 
 func runC19(res *Result, d *Driver, tier string, seed uint64) {
-	res.Rule = "real SOCK_SEQPACKET socketpairs through pkg/unixsocket: interleaved send/receive histories with payload sizes 0,1,..,buffer±1,64 KiB, descriptor counts 0,1,2,16,252,253,254, with/without credentials (own and, as root, other), receive buffers smaller/equal/larger than the message; compared per operation with Model.Socket (driver): bytes, identity (dev,ino) and FD_CLOEXEC of received descriptors, Ucred, error-or-delivery, and the process' descriptor count after every rejected message; receives with a full descriptor table (0, 1, n-1, n free slots for n = 1,2,5,16,100 descriptors): rejected unless all fit, nothing leaked; " +
+	res.Rule = "real SOCK_SEQPACKET socketpairs through pkg/unixsocket: interleaved send/receive histories with payload sizes 0,1,..,buffer±1,64 KiB, descriptor counts 0,1,2,16,252,253,254, with/without credentials (own and, as root, other), receive buffers smaller/equal/larger than the message; compared per operation with Model.Socket (driver): bytes, identity (dev,ino) and FD_CLOEXEC of received descriptors, Ucred, error-or-delivery, and the process' descriptor count after every rejected message; receives with a full descriptor table (0, 1, n-1, n free slots for n = 1,2,5,16,100 descriptors): rejected unless all fit, nothing leaked; full-duplex exchanges (both ends send and receive at once on one Socket value, descriptors checked by identity and position); " +
 		"gob-framed layer (container.socket through the verif hook): typed messages with first use of a type at every position, payloads around the 32 KiB cap. non-trivial = message with descriptors/credentials or not fitting the buffer; distinct = (history prefix, op)."
 	rng := NewRng(seed, "C19", 1)
 	n := 60
@@ -114,6 +116,10 @@ func runC19(res *Result, d *Driver, tier string, seed uint64) {
 				if strings.HasPrefix(impl, "msg") && !strings.HasSuffix(impl, "intact=1") {
 					m.Oracle = "violates"
 					m.Note = "a delivered message is not intact"
+				}
+				if strings.HasPrefix(impl, "msg") && strings.HasPrefix(model, "msg") && m.Oracle != "violates" {
+					m.Oracle = "violates"
+					m.Note = "a message was delivered that is not the message sent (length, descriptor count or sender-specified credentials)"
 				}
 				if sz == 0 {
 					// net.UnixConn pads an empty payload that carries control data with one dummy byte, and an empty
@@ -224,6 +230,104 @@ func runC19(res *Result, d *Driver, tier string, seed uint64) {
 				}
 			}
 		}
+	}
+
+	// ---- both directions at once on one Socket (what the container's send and receive loops do): every message
+	// still carries exactly its own descriptors, in order, and nothing is leaked ----
+	{
+		nd := 3000
+		if tier == "thorough" {
+			nd = 60000
+		}
+		a, b, err := unixsocket.NewSocketPair()
+		if err != nil {
+			fatal("socketpair: %v", err)
+		}
+		runtime.GC()
+		base := fdCount(os.Getpid())
+		var mu sync.Mutex
+		var bad []string
+		note := func(f string, x ...any) {
+			mu.Lock()
+			if len(bad) < 5 {
+				bad = append(bad, fmt.Sprintf(f, x...))
+			}
+			mu.Unlock()
+		}
+		var wg sync.WaitGroup
+		send := func(s *unixsocket.Socket, tag byte) {
+			defer wg.Done()
+			for k := 0; k < nd; k++ {
+				nf := 1 + k%3
+				var fds []int
+				for i := 0; i < nf; i++ {
+					if (k+i)%2 == 0 {
+						fds = append(fds, int(devnull.Fd()))
+					} else {
+						fds = append(fds, int(tmp.Fd()))
+					}
+				}
+				payload := []byte{tag, byte(k), byte(k >> 8), byte(k >> 16)}
+				if err := s.SendMsg(payload, unixsocket.Msg{Fds: fds}); err != nil {
+					note("send %c #%d: %v", tag, k, err)
+					return
+				}
+			}
+		}
+		recv := func(s *unixsocket.Socket, tag byte) {
+			defer wg.Done()
+			buf := make([]byte, 64)
+			for k := 0; k < nd; k++ {
+				s.SetReadDeadline(time.Now().Add(10 * time.Second))
+				n, msg, err := s.RecvMsg(buf)
+				if err != nil {
+					note("recv of %c #%d: %v", tag, k, err)
+					return
+				}
+				nf := 1 + k%3
+				okm := n == 4 && buf[0] == tag && int(buf[1])|int(buf[2])<<8|int(buf[3])<<16 == k && len(msg.Fds) == nf
+				for i, fd := range msg.Fds {
+					var st syscall.Stat_t
+					if syscall.Fstat(fd, &st) != nil {
+						okm = false
+						continue
+					}
+					want := stNull
+					if (k+i)%2 == 1 {
+						want = stTmp
+					}
+					if st.Dev != want.Dev || st.Ino != want.Ino {
+						okm = false
+					}
+					syscall.Close(fd)
+				}
+				if !okm {
+					note("message %c #%d arrived as %d bytes %v with %d descriptors (wanted %d, identities by position)", tag, k, n, buf[:min(n, 4)], len(msg.Fds), nf)
+				}
+			}
+		}
+		wg.Add(4)
+		go send(a, 'a')
+		go send(b, 'b')
+		go recv(a, 'b')
+		go recv(b, 'a')
+		done := make(chan struct{})
+		go func() { wg.Wait(); close(done) }()
+		select {
+		case <-done:
+		case <-time.After(30 * time.Second):
+			note("duplex exchange did not finish within 30 s")
+		}
+		res.Case(fmt.Sprintf("duplex %d messages each way, 1..3 descriptors", nd), true, "duplex")
+		res.Traces++
+		if len(bad) == 0 && !settle(func() bool { return fdCount(os.Getpid()) <= base }) {
+			note("descriptors leaked: count %d, before the exchange %d", fdCount(os.Getpid()), base)
+		}
+		if len(bad) > 0 {
+			res.Mismatch(Mismatch{Kind: "oracle", What: "send and receive at the same time on one socket: each message carries exactly the descriptors attached by its sender (C19)", Input: fmt.Sprintf("two sockets, each sending %d messages with 1..3 descriptors while receiving the peer's", nd), Impl: strings.Join(bad, "; "), Oracle: "violates"})
+		}
+		a.Close()
+		b.Close()
 	}
 
 	// ---- gob-framed layer ----
